@@ -76,8 +76,18 @@ var (
 func c13Check(c *fw.Ctx, layout geom.Layout, pts []ipt, via int, class string) {
 	stride := layout.Stride()
 	flat := make([]float64, 0, len(pts)*stride)
+	// one input in three writes some of its zero ordinates as -0: the same point
+	// then occurs with both zero signs (equal as numbers, different as bit patterns)
+	negZero := c.R.Chance(1, 3)
+	nz := func(v int64) float64 {
+		if v == 0 && negZero && c.R.Bool() {
+			c.Count("ordinates_written_as_negative_zero")
+			return math.Copysign(0, -1)
+		}
+		return float64(v)
+	}
 	for i, p := range pts {
-		flat = append(flat, float64(p.x), float64(p.y))
+		flat = append(flat, nz(p.x), nz(p.y))
 		for k := 2; k < stride; k++ {
 			// unique ids in the extra ordinates make provenance observable
 			flat = append(flat, float64(1000*(k-1)+i))
